@@ -61,6 +61,10 @@ pub enum Entry6 {
     /// splice into the middle of a vector with a replacement iterator whose size_hint lower bound
     /// is `count` (it yields three items): the hint is an element count that must be refused
     VecSpliceHint,
+    /// a vector of zero-sized elements whose length is within two of usize::MAX takes one to three
+    /// more elements through one of the growing methods (chosen by `count`): the element count
+    /// overflows, so the call must panic and the length must not wrap
+    VecZstFull,
     StrWithCapacity,
     StrReserve,
     StrReserveExact,
@@ -381,6 +385,63 @@ fn vec_entry<T: Copy + Default + 'static>(b: &'static Bump, s: &W6Script) -> Got
             let r = call6(0, || v.resize(n, T::default())).map(Some);
             conv_v(r, &v)
         }
+        Entry6::VecZstFull => {
+            if esz != 0 {
+                std::mem::forget(v);
+                return Got::Err;
+            }
+            let len0 = usize::MAX - (n % 3);
+            let extra = 1 + (n / 3) % 3;
+            let how = (n / 9) % 8;
+            unsafe { v.set_len(len0) };
+            let r = call6(0, || match how {
+                0 => {
+                    for _ in 0..extra {
+                        v.push(T::default());
+                    }
+                }
+                1 => {
+                    for _ in 0..extra {
+                        v.insert(0, T::default());
+                    }
+                }
+                2 => v.extend((0..extra).map(|_| T::default())),
+                3 => v.extend_from_slice_copy(&[T::default(); 3][..extra]),
+                4 => v.extend_from_slice(&[T::default(); 3][..extra]),
+                5 => {
+                    let mut o: BVec<'static, T> = BVec::new_in(b);
+                    for _ in 0..extra {
+                        o.push(T::default());
+                    }
+                    v.append(&mut o);
+                    std::mem::forget(o);
+                }
+                6 => v.extend_from_slices_copy(&[&[T::default(); 3][..extra], &[]]),
+                _ => {
+                    for _ in 0..extra {
+                        v.reserve(1);
+                        let l = v.len();
+                        unsafe { v.set_len(l.wrapping_add(1)) };
+                    }
+                }
+            });
+            let len1 = v.len();
+            std::mem::forget(v);
+            let overflows = len0.checked_add(extra).is_none();
+            return match r {
+                Ok(()) if overflows || len1 < len0 => Got::Panic(
+                    PanicClass::Other,
+                    format!("CAPACITY-SHORT a vector of usize::MAX - {} zero-sized elements accepted {} more (method {}); its length is now {}", usize::MAX - len0, extra, how, len1),
+                ),
+                Err(_) if len1 < len0 => Got::Panic(
+                    PanicClass::Other,
+                    format!("CAPACITY-SHORT a vector of usize::MAX - {} zero-sized elements refused {} more (method {}) but its length wrapped to {}", usize::MAX - len0, extra, how, len1),
+                ),
+                Ok(()) => Got::Ok { addr: 0, bytes: Some(0) },
+                // a panic of any kind is what C19 asks of an infallible method here
+                Err(_) => Got::Err,
+            };
+        }
         Entry6::VecSpliceHint => {
             struct Hinted<T> {
                 left: usize,
@@ -626,6 +687,7 @@ pub fn exec_w6(s: &W6Script) -> WReport {
             | Entry6::VecResize
             | Entry6::VecExtendSlicesCopy
             | Entry6::VecSpliceHint
+            | Entry6::VecZstFull
     );
     let is_str = matches!(s.entry, Entry6::StrWithCapacity | Entry6::StrReserve | Entry6::StrReserveExact);
     if is_vec || is_str {
@@ -752,6 +814,7 @@ pub fn gen_w6(seed: u64) -> W6Script {
         Entry6::VecResize,
         Entry6::VecExtendSlicesCopy,
         Entry6::VecSpliceHint,
+        Entry6::VecZstFull,
         Entry6::StrWithCapacity,
         Entry6::StrReserve,
         Entry6::StrReserveExact,
@@ -768,7 +831,7 @@ pub fn gen_w6(seed: u64) -> W6Script {
         };
     }
     let es = match entry {
-        Entry6::SliceCopyZst => ES::Z0,
+        Entry6::SliceCopyZst | Entry6::VecZstFull => ES::Z0,
         Entry6::StrWithCapacity | Entry6::StrReserve | Entry6::StrReserveExact | Entry6::WithCapacity | Entry6::AllocLayout { .. } => ES::B1,
         _ => *r.pick(&ALL_ES),
     };
